@@ -339,6 +339,15 @@ impl<Db: Database> StorageManager<Db> {
         None
     }
 
+    /// The generation of the cache (if present), to be taken before reading from the database
+    /// records which are going to be cached
+    async fn cache_generation(&self) -> u64 {
+        match &self.cache {
+            Some(cache) => cache.generation().await,
+            None => 0,
+        }
+    }
+
     /// Retrieve a stored record as it was last committed, i.e. from the cache or the database,
     /// ignoring the pending writes of a transaction which may currently be active.
     pub async fn get_committed<St: Storable>(
@@ -352,12 +361,13 @@ impl<Db: Database> StorageManager<Db> {
         }
 
         self.increment_metric(METRIC_GET);
+        let generation = self.cache_generation().await;
         let record = self
             .tic_toc(METRIC_READ_TIME, self.db.get::<St>(id))
             .await?;
         if let Some(cache) = &self.cache {
             cache
-                .batch_put_if_absent(slice::from_ref(&record))
+                .batch_put_if_absent(slice::from_ref(&record), generation)
                 .await;
         }
         Ok(record)
@@ -372,13 +382,14 @@ impl<Db: Database> StorageManager<Db> {
         // cache miss, read direct from db
         self.increment_metric(METRIC_GET);
 
+        let generation = self.cache_generation().await;
         let record = self
             .tic_toc(METRIC_READ_TIME, self.db.get::<St>(id))
             .await?;
         if let Some(cache) = &self.cache {
             // cache the result, unless a more recent version was cached by a write meanwhile
             cache
-                .batch_put_if_absent(slice::from_ref(&record))
+                .batch_put_if_absent(slice::from_ref(&record), generation)
                 .await;
         }
         Ok(record)
@@ -424,13 +435,14 @@ impl<Db: Database> StorageManager<Db> {
         if !key_set.is_empty() {
             // these are items to be retrieved from the backing database (not in pending transaction or in the object cache)
             let keys = key_set.into_iter().collect::<Vec<_>>();
+            let generation = self.cache_generation().await;
             let mut results = self
                 .tic_toc(METRIC_READ_TIME, self.db.batch_get::<St>(&keys))
                 .await?;
 
             // cache the db returned results, unless more recent versions were cached by a write meanwhile
             if let Some(cache) = &self.cache {
-                cache.batch_put_if_absent(&results).await;
+                cache.batch_put_if_absent(&results, generation).await;
             }
 
             records.append(&mut results);
@@ -480,6 +492,7 @@ impl<Db: Database> StorageManager<Db> {
         username: &AkdLabel,
         flag: ValueStateRetrievalFlag,
     ) -> Result<ValueState, StorageError> {
+        let generation = self.cache_generation().await;
         let maybe_db_state = match self
             .tic_toc(METRIC_READ_TIME, self.db.get_user_state(username, flag))
             .await
@@ -514,7 +527,7 @@ impl<Db: Database> StorageManager<Db> {
             // cache the item for future access
             if let Some(cache) = &self.cache {
                 cache
-                    .batch_put_if_absent(&[DbRecord::ValueState(state.clone())])
+                    .batch_put_if_absent(&[DbRecord::ValueState(state.clone())], generation)
                     .await;
             }
 
